@@ -198,8 +198,7 @@ func TestC11Rapid(t *testing.T) {
 			}
 			if rapid.IntRange(0, 29).Draw(rt, "roundtrip") == 0 {
 				// the chain is exported and restarted from that genesis in the middle of the history
-				w.e = importL1(w.e, w.e.K.ExportGenesis(w.e.Ctx))
-				w.logf("genesis export -> import")
+				w.restart(rt)
 				c.Class("genesis-round-trip-inside-history")
 				if err := c11Log(w); err != nil {
 					rt.Fatalf("C11 violated after a genesis round trip: %v\nhistory:\n%s", err, w.history())
